@@ -100,10 +100,13 @@ def gen_recipe(rng):
     # overrides inside the stored block of sheet S: a number cleared to "" or replaced, a blank filled - the fold sees the values in force
     ov = {}
     base_sheets = sheets
-    if rng.random() < 0.35:
+    if rng.random() < 0.35 or fn == 'COUNTBLANK':
         for _ in range(rng.randint(1, 3)):
             a = '%s%d' % (rng.choice(COLS), rng.randint(1, 5))
             ov[a] = rng.choice(['', '', 0, 7, 2.5, 'x', True])
+        stored = [a for a, v in sheets[0][1].items() if isinstance(v, (int, float, dt.datetime)) and not isinstance(v, str)]
+        for a in rng.sample(stored, min(len(stored), rng.randint(1, 3))) if fn == 'COUNTBLANK' else []:
+            ov[a] = ''                                     # a stored number / boolean / date cleared by the override
         eff = dict(sheets[0][1])
         eff.update(ov)
         sheets = [(sheets[0][0], eff), sheets[1]]
